@@ -126,3 +126,13 @@ Qed.
 
 Theorem C12_src_loops : gk_loops_src = ["for (i, (_, unit1)) in enumerate(unitary_alignment.n_tuple)"; "for (_, unit2) in unitary_alignment.n_tuple[i + 1:]"]%string.
 Proof. reflexivity. Qed.
+
+(* nv is recomputed from the current tuple at every query (no memo), and the tuple is what the setter last stored: the number of real units
+   the weights use is that of the unitary alignment AS IT IS when gamma_k_disorder runs *)
+Theorem C12_src_unitary_alignment :
+  unitary_alignment_src =
+  [("nb_units property", "return sum((1 for _ in filter(lambda annot_unit: annot_unit[1] is not None, self._n_tuple)))");
+   ("n_tuple property", "return self._n_tuple");
+   ("n_tuple n_tuple.setter", "self._n_tuple = n_tuple; self._disorder = None");
+   ("__init__", "assert len(n_tuple) >= 2; self._n_tuple: UnitsTuple = n_tuple; self._disorder: Optional[float] = None")]%string.
+Proof. reflexivity. Qed.
